@@ -10,8 +10,9 @@ JOBS = [
 META = dict(
     explanation='Raw framing: util::json::FindEndPos (clang IR -> C via ir2c, CBMC/cadical) on arbitrary byte strings with a symbolic length and a symbolic prefix length; prefix stability of the scan is exactly segmentation independence of RawStreamProto, which rescans its buffer on every arrival; a second harness builds JSON strings with symbolic content and escape pairs and requires the value to end at its closing brace. '
                 'Length-prefixed framing: the real HeaderStreamProto::onRecvData (with Deserializer and the compiled nlohmann parser) runs in symir on 6 fully symbolic header bytes (magic, 32-bit length incl. extreme values) and a symbolic buffer size; an escaping exception is a violation. '
-                'Completion: the real eventx::TimeoutMonitor (the engine behind Rpc request time-outs) runs on a fake loop/timer with symbolic add/tick scripts and retries issued from inside the time-out callback; each value must time out exactly once and the tick timer must run exactly while something is pending.',
-    bounds='FindEndPos: all byte strings <= 6 (8 thorough), every prefix; string members of 3 symbolic pieces; header framing: 12-byte buffer; timeout monitor: 1-3 rounds, 5 symbolic steps, <= 6 values',
-    outside='round trip of arbitrary nested JSON values through nlohmann::json dump/parse (library code far beyond the bound); PacketProto; Rpc id bookkeeping (only its time-out engine is covered); non-ASCII JSON text',
+                'Completion: the real eventx::TimeoutMonitor (the engine behind Rpc request time-outs) runs on a fake loop/timer with symbolic add/tick scripts and retries issued from inside the time-out callback; each value must time out exactly once and the tick timer must run exactly while something is pending.'
+                ' Extended: RawStreamProto::onRecvData (FindEndPos + the compiled JSON parser) on every text of <= 3 characters over { } [ ] " 1 , space: answer by return value (-1 / 0 / consumed), never an exception.',
+    bounds='FindEndPos: all byte strings <= 6 (8 thorough), every prefix; string members of 3 symbolic pieces; header framing: 12-byte buffer; timeout monitor: 1-3 rounds, 5 symbolic steps, <= 6 values; raw stream: 3 characters over 8 symbols',
+    outside='round trip of arbitrary nested JSON values through nlohmann::json dump/parse (library code far beyond the bound); PacketProto; Rpc id bookkeeping (only its time-out engine is covered); non-ASCII JSON text; raw-stream texts longer than 3 characters',
     assumptions=['isgraph() follows the C locale', 'fake TimerEvent fires only while enabled', 'CatchThrow stub catches everything like the real one (logging/backtrace removed)'],
     trusted_base=['clang++-14 -O1 IR', 'engine/ir2c.py + cbmc 6.11', 'engine/symir.py + z3', 'harness/vp_fakes.hpp'])
